@@ -23,11 +23,17 @@ package main
 //                  the stack dump file cannot be created (argv[0] under /proc/self) and a slow writer keeps entries pending;
 //                  in a third of them 2-4 guarded goroutines panic 0..25 ms apart while a backlog is being flushed;
 //        rawonly — like late, but only WriteLog / Trace calls precede the flush;
+//        swap    — entries are queued behind a blocked writer, every logger gets a new writer (SetWriter), more entries are
+//                  logged, then the flush: each entry must reach the writer installed when its logging call was made;
+//        invoke  — the real tars Protocol.Invoke with a dispatcher whose method logs through a slow writer and panics:
+//                  the framework's own `defer CheckPanic()`; entries in the log, exit status 255;
 //        runexit — entries are logged while tars.Run is running; SIGTERM; Run returns through its deferred FlushLogger;
 //        second  — flush, log again, flush again (FlushLogger is one-shot in the code: known finding).
 
 import (
 	"bufio"
+	"context"
+	"encoding/binary"
 	"encoding/json"
 	"fmt"
 	"math/rand"
@@ -46,6 +52,8 @@ import (
 	"time"
 
 	"github.com/TarsCloud/TarsGo/tars"
+	"github.com/TarsCloud/TarsGo/tars/protocol/codec"
+	"github.com/TarsCloud/TarsGo/tars/protocol/res/requestf"
 	"github.com/TarsCloud/TarsGo/tars/util/rogger"
 )
 
@@ -91,6 +99,7 @@ type c20ChildOut struct {
 	QLen      int      `json:"qlen"` // queue length when FlushLogger was called
 	FlushMs   float64  `json:"flush_ms"`
 	TimeoutMs float64  `json:"timeout_ms"`
+	Exit      int      `json:"exit"` // exit-through-CheckPanic modes: exit status of the child
 	Hook      string   `json:"hook"` // non-empty: the forced interleaving could not be set up
 	Note      string   `json:"note"`
 }
@@ -235,6 +244,7 @@ type c20Env struct {
 	recs    [][]c20Rec // per logging goroutine, plus one for the flush caller (index G)
 	file    *os.File
 	next    []int // next sequence number per goroutine
+	cur     []int // id of the writer currently installed on each logger (changed only while no logging call is in progress)
 }
 
 func (e *c20Env) rec(slot int, kind, g, n, w int) {
@@ -252,7 +262,8 @@ func (e *c20Env) logOne(g int) {
 	w, api, _ := c20Shape(e.sc, g, n)
 	p := c20Payload(e.sc, g, n)
 	lg := e.loggers[w]
-	e.rec(g, c20KCall, g, n, w)
+	wid := e.cur[w] // the writer this entry is addressed to: the one installed on its logger now
+	e.rec(g, c20KCall, g, n, wid)
 	switch api {
 	case 0:
 		lg.Debugf("%s", p)
@@ -269,8 +280,18 @@ func (e *c20Env) logOne(g int) {
 	case 6:
 		lg.Trace(p)
 	}
-	e.rec(g, c20KRet, g, n, w)
+	e.rec(g, c20KRet, g, n, wid)
 }
+
+// c20Disp is the dispatcher handed to the real tars Protocol in mode invoke
+type c20Disp struct{ run func() }
+
+func (d *c20Disp) Dispatch(ctx context.Context, imp interface{}, req *requestf.RequestPacket, rsp *requestf.ResponsePacket, withContext bool) error {
+	d.run()
+	return nil
+}
+
+func c20ExitMode(m string) bool { return m == "panic" || m == "invoke" }
 
 func c20WaitFor(cond func() bool, d time.Duration) bool {
 	dl := time.Now().Add(d)
@@ -307,7 +328,7 @@ func c20RunScenario(sc c20Scenario) c20ChildOut {
 	}
 	var gate chan struct{}
 	var gated int32
-	if sc.Mode == "fullq" {
+	if sc.Mode == "fullq" || sc.Mode == "swap" {
 		gate = make(chan struct{})
 	}
 	for w := 0; w < sc.W; w++ {
@@ -320,6 +341,7 @@ func c20RunScenario(sc c20Scenario) c20ChildOut {
 		}
 		env.loggers = append(env.loggers, lg)
 		env.writers = append(env.writers, wr)
+		env.cur = append(env.cur, w)
 	}
 	flushSlot := sc.G
 	var returned int64 // logging calls that have returned
@@ -465,6 +487,53 @@ func c20RunScenario(sc c20Scenario) c20ChildOut {
 			out.Hook = "tars.Run returned but the flusher has not acknowledged a flush (FlushLogger not called on the way out, or it ran into its time limit)"
 			return out
 		}
+	case "swap":
+		// the first Write blocks: everything logged now stays queued, addressed to the first writers
+		for g := 0; g < sc.G; g++ {
+			wg.Add(1)
+			go logN(g, sc.N, false, &wg)
+		}
+		wg.Wait()
+		// every logger gets a new writer while its entries are queued (as framework start-up replaces the console writer)
+		for w := 0; w < sc.W; w++ {
+			nb := &c20Writer{id: sc.W + w, prefix: env.writers[w].prefix, delay: env.writers[w].delay, sc: &sc, file: env.file}
+			env.loggers[w].SetWriter(nb)
+			env.writers = append(env.writers, nb)
+			env.cur[w] = sc.W + w
+		}
+		for g := 0; g < sc.G; g++ {
+			wg.Add(1)
+			go logN(g, sc.LastN, false, &wg)
+		}
+		wg.Wait()
+		out.Note = fmt.Sprintf("queued at the writer change: %d", rogger.VerifQueueLen())
+		close(gate)
+		flush()
+	case "invoke":
+		// the framework's own server-side path: the real Protocol.Invoke with a dispatcher whose method logs and panics
+		disp := &c20Disp{run: func() {
+			for g := 0; g < sc.G; g++ {
+				wg.Add(1)
+				go logN(g, sc.N, true, &wg)
+			}
+			wg.Wait()
+			env.rec(flushSlot, c20KFlushCall, 0, 0, 0)
+			fmt.Fprintf(env.file, "P %d\n", time.Now().UnixNano())
+			var m map[string]int
+			m["boom"] = 1 // nil map write inside the servant method
+		}}
+		p := tars.VerifNewProtocol(disp, nil, sc.JSON)
+		rq := requestf.RequestPacket{IVersion: 1, CPacketType: 0, IRequestId: 7, SServantName: "verif.c20", SFuncName: "boom", SBuffer: []int8{},
+			ITimeout: int32(sc.Last), Context: map[string]string{}, Status: map[string]string{}}
+		buf := codec.NewBuffer()
+		rq.WriteTo(buf)
+		body := buf.ToBytes()
+		frame := make([]byte, 4+len(body))
+		binary.BigEndian.PutUint32(frame, uint32(len(frame)))
+		copy(frame[4:], body)
+		p.Invoke(context.Background(), frame)
+		out.Hook = "Protocol.Invoke returned after the servant method panicked"
+		return out
 	case "second":
 		for g := 0; g < sc.G; g++ {
 			wg.Add(1)
@@ -723,8 +792,8 @@ func c20Child(sc c20Scenario) (c20ChildOut, string) {
 		return c20ChildOut{}, "child killed after 45 s"
 	}
 	_ = t0
-	if sc.Mode == "panic" {
-		return c20PanicOut(sc, werr, time.Now(), so.String())
+	if c20ExitMode(sc.Mode) {
+		return c20PanicOut(sc, werr, time.Now(), so.String()+se.String())
 	}
 	if werr != nil {
 		return c20ChildOut{}, "child failed: " + werr.Error() + ": " + se.String()
@@ -748,6 +817,9 @@ func c20PanicOut(sc c20Scenario, werr error, exited time.Time, stdout string) (c
 	if werr == nil {
 		out.Hook = "the panicking child exited with status 0 (CheckPanic did not exit the process)"
 		return out, ""
+	}
+	if ee, ok := werr.(*exec.ExitError); ok {
+		out.Exit = ee.ExitCode()
 	}
 	f, err := os.Open(filepath.Join(sc.Dir, "events.log"))
 	if err != nil {
@@ -813,7 +885,7 @@ func c20Run(c *c20Case) []Failure {
 	}
 	for attempt := 0; ; attempt++ {
 		sc := c.Sc
-		if sc.Mode == "panic" {
+		if c20ExitMode(sc.Mode) {
 			d, err := os.MkdirTemp(c20WorkDir, "c20panic")
 			if err != nil {
 				return []Failure{{Sig: "C20/child", Desc: "work dir: " + err.Error()}}
@@ -839,6 +911,9 @@ func c20Run(c *c20Case) []Failure {
 		for _, m := range out.Content {
 			fs = append(fs, Failure{Sig: "C20/write/not-one-whole-entry", Desc: m})
 			break
+		}
+		if c20ExitMode(sc.Mode) && cerr == "" && out.Hook == "" && out.Exit != 255 {
+			fs = append(fs, Failure{Sig: "C20/panic-exit/exit-status", Desc: fmt.Sprintf("the process that panicked under the framework's CheckPanic guard ended with exit status %d, not with CheckPanic's os.Exit(-1) (255): the panic was not handled by CheckPanic (no stack dump, no FlushLogger)", out.Exit)})
 		}
 		for _, f := range c20Monitor(out.Events, out.FlushMs, out.TimeoutMs, c20SmallBacklog(sc)) {
 			dup := false
@@ -930,6 +1005,17 @@ func c20Gen(tier string, rng *rand.Rand) []c20Case {
 				sc.Delay = 50
 				sc.N = 30/sc.G + rng.Intn(1+50/sc.G)
 			}
+		case "swap":
+			sc.G = 1 + rng.Intn(6)
+			sc.N = 1 + rng.Intn(10)
+			sc.LastN = rng.Intn(6)
+			sc.Delay = []int{0, 0, 20}[rng.Intn(3)]
+			sc.W = 1 + rng.Intn(4)
+		case "invoke":
+			sc.G = 1 + rng.Intn(4)
+			sc.N = 5 + rng.Intn(20)
+			sc.Delay = []int{0, 50, 50}[rng.Intn(3)]
+			sc.Last = []int{0, 3000}[rng.Intn(2)] // request timeout: with and without the deferred cancel
 		case "rawonly":
 			sc.G = 1 + rng.Intn(4)
 			sc.N = 1 + rng.Intn(20)
@@ -946,13 +1032,13 @@ func c20Gen(tier string, rng *rand.Rand) []c20Case {
 		}
 		return c20Case{Sc: sc, Expect: true}
 	}
-	counts := map[string]int{"forced": 200, "stress": 120, "late": 40, "fullq": 4, "quiesce": 12, "panic": 30, "second": 4, "runexit": 8, "rawonly": 4}
+	counts := map[string]int{"forced": 200, "stress": 120, "late": 40, "fullq": 4, "quiesce": 12, "panic": 30, "second": 4, "runexit": 8, "rawonly": 4, "swap": 16, "invoke": 10}
 	if tier == "thorough" {
-		counts = map[string]int{"forced": 3000, "stress": 2000, "late": 600, "fullq": 30, "quiesce": 150, "panic": 400, "second": 20, "runexit": 100, "rawonly": 40}
+		counts = map[string]int{"forced": 3000, "stress": 2000, "late": 600, "fullq": 30, "quiesce": 150, "panic": 400, "second": 20, "runexit": 100, "rawonly": 40, "swap": 200, "invoke": 120}
 	}
 	// the smallest forced case first: one goroutine, one entry inside the window
 	cs = append(cs, c20Case{Sc: c20Scenario{Mode: "forced", G: 1, N: 0, Last: 1, LastN: 1, W: 1, Procs: 2, Seed: 1}, Expect: true})
-	for _, m := range []string{"forced", "stress", "late", "rawonly", "fullq", "quiesce", "panic", "runexit", "second"} {
+	for _, m := range []string{"forced", "stress", "late", "rawonly", "swap", "fullq", "quiesce", "panic", "invoke", "runexit", "second"} {
 		for i := 0; i < counts[m]; i++ {
 			cs = append(cs, mk(m))
 		}
